@@ -73,7 +73,11 @@ def apply_substitutions(tree, sets):
                     text = f.read()
             except OSError as e:
                 raise Inconclusive("anchor file missing: %s (%s)" % (ent["file"], e))
-            if "anchor" in ent:
+            if "anchor" in ent and ent.get("count") == "all":
+                # every occurrence, however many (0 included): used for whole classes of statements (diagnostics), so that
+                # occurrences a changed tree adds are covered as well
+                text = text.replace(ent["anchor"], ent["replacement"])
+            elif "anchor" in ent:
                 want = ent.get("count", 1)
                 got = text.count(ent["anchor"])
                 if got != want:
